@@ -4,7 +4,7 @@
    nothing is asked.  With ErrorTokens.v: the text of a value nested deeper than the limit lexes to
    the tokens before the first dot, the Error token "." and EOF, and is rejected. *)
 From Coq Require Import String Ascii.
-From Verif Require Import Base Params Value Coll Formatter FormatSpec FormatProofs FormatText FormatBound.
+From Verif Require Import Base Params Value Coll Formatter FormatSpec FormatProofs FormatText FormatBound FormatDeep.
 From Verif Require Import Lexer Literals Parser LexerProofs LexBridge LexBridge2 LexBridge3 ParserProofs CdcnProofs Complete StripInv LexRender ErrorTokens ScanUpto.
 From Verif Require Import RoundTripLit RoundTrip RoundTripLeaf.
 From Verif Require RoundTripScan.
@@ -345,5 +345,25 @@ Proof.
     split; [apply (lex_prefix_dot pre _ Sb)|].
     apply place_pre_nonerr, F.
   - apply (prefix_dot_rejected fparse crank pre _ Sb).
+Qed.
+
+(* for every value nested deeper than the limit that FormatValue accepts *)
+Corollary elided_not_parsed v text :
+  (maximum < nest_depth v)%nat -> format0 ftext printable maximum v = Ret text ->
+  floats_roundtrip fparse ftext v = true ->
+  (exists pre line pos,
+     lex text = pre ++ [mkTok Lexer.TError [46] line pos; mkTok Lexer.TEOF [46] line pos] /\
+     Forall (fun t => ttype_of t <> Lexer.TError) pre) /\
+  match parse_source fparse crank text with
+  | PValue _ => False
+  | PSyntax t => In t (lex text)
+  | PRuntime RCollator => exists a b, crank a b = None
+  | _ => False
+  end.
+Proof.
+  intros Hn Hf Fl. apply (elided_rejected v text Hf); [|exact Fl].
+  pose proof Hf as Hf'. rewrite format0_tokens in Hf'.
+  destruct (tokens_of ftext printable maximum v) as [ts|] eqn:Ets; [|discriminate].
+  exists ts. split; [reflexivity|]. apply (format_elides_beyond_limit ftext printable maximum v ts Hn Ets).
 Qed.
 End Elided.
